@@ -16,7 +16,7 @@ META = {
     "abs/min/max, calls into helper functions with swapped/expression arguments, module constants, math.* and numpy calls); "
     "renamings: none, identity, fresh names, every permutation of the function's own parameter names, partially overlapping names",
     "stubs": ["math/np module globals of the program module rebound to UF-backed proxies (same uninterpreted functions on both sides)"],
-    "outside": "functions whose equivalence needs transcendental identities; loops, comprehensions, closures, modulo / floor division",
+    "outside": "arguments outside [-1024, 1024] for the generated programs (float folding of constants by sympy is a rounding matter); functions whose equivalence needs transcendental identities; loops, comprehensions, closures, modulo / floor division",
     "assumptions_list": ["real arithmetic", "denominators non-zero / arguments inside the function's domain (recorded per path)"],
 }
 
@@ -34,6 +34,7 @@ def renamings(params):
 
 class Prog(Scenario):
     modules = ["vf.c06_programs", "mxlpy.fns"]
+    max_paths = 400
 
     def __init__(self, fn, rname, names, group="probe"):
         self.fn = fn
@@ -73,6 +74,13 @@ class Prog(Scenario):
             ctx.true("refused (no expression)", True)
             return
         vals = [ctx.real(f"a{i}") for i in range(len(params))]
+        if self.key.startswith("C06/gen/"):
+            # sympy folds constant sub-expressions in floats (x / 1.5 becomes 0.666...*x): a 1e-16 relative
+            # difference that only shows through cancellation at huge magnitudes. Rounding is outside the claim,
+            # so the generated programs are compared on a bounded box.
+            for v in vals:
+                ctx.assume(v >= -1024)
+                ctx.assume(v <= 1024)
         env = dict(zip(names, vals))
         try:
             py = self.fn(*vals)
@@ -116,4 +124,16 @@ def scenarios(tier, seed):
         rn = rn[:3] + (rn[3:5] if tier == "quick" else rn[3:9])
         for rname, names in rn:
             scs.append(Prog(fn, rname, names, group="fns"))
+    if tier != "quick":
+        import atexit
+        import shutil
+        import tempfile
+
+        from vf import c06_gen
+
+        tmp = tempfile.mkdtemp(prefix="c06gen_")
+        atexit.register(shutil.rmtree, tmp, ignore_errors=True)
+        for fn in c06_gen.load(tmp, 3000):
+            for rname, names in (("none", None), ("perm10", ["y", "x"]), ("overlap", ["zz", "x"])):
+                scs.append(Prog(fn, rname, names, group="gen"))
     return scs
